@@ -67,6 +67,21 @@ def generate(rng, tier, seed):
                     yield c
     # block sizes well beyond the cipher sizes (the property speaks of every block size): around 16/17, 32, the 255/256/257 boundaries of
     # one-byte arithmetic and of small-integer identity, and a few hundred; lengths empty, one byte, one short of / exactly / one over a block, two blocks
+    # block sizes beyond any buffer an implementation might keep (4 KiB, 64 KiB): judged against harness/ref_mac.py in this process
+    import ref_mac
+    for b in (4095, 4096, 4097, 5000, 65536, 65537):
+        for ln in sorted({0, 1, b - 1, b, b + 1, 2 * b}):
+            data = rb(rng, 64) * (ln // 64) + rb(rng, ln % 64) if ln % 3 else bytes(ln)
+            for m in (1, 2, 3):
+                c = Case(f"pad_iso_{m}:huge-block-size", {"bs": b, "len": ln})
+                c.key = ("huge", b, ln, m)
+                r = core.call_impl(f"mac.pad_iso_{m}", (data, b))
+                want = ref_mac.pad(m, data, b)
+                if not r.ok:
+                    c.fail(f"raised {r.err} for block size {b}, length {ln}")
+                elif r.value != want:
+                    c.fail(f"pad_iso_{m} with block size {b} on {ln} bytes returns {len(r.value)} bytes, ISO 9797-1 gives {len(want)}" if len(r.value) != len(want) else f"pad_iso_{m} with block size {b}: content differs")
+                yield c
     for b in (17, 31, 32, 33, 64, 255, 256, 257, 258, 300, 1000):
         for ln in sorted({0, 1, b - 1, b, b + 1, 2 * b - 1, 2 * b, 2 * b + 1}):
             data = rb(rng, ln) if ln % 3 else bytes(ln)
